@@ -80,8 +80,7 @@ def corpus():
     res = []
     size, chunk = 217145, 51200
     nreads = -(-size // chunk)
-    cuts = [("r", i, "keep") for i in range(nreads + 1)] + [("e", 0, "keep"), ("d", 2, "keep"), ("r", 3, "restart"),
-                                                            ("d", nreads - 1, "restart")]
+    cuts = [("r", i, "keep") for i in range(nreads + 1)] + [("e", 0, "keep"), ("d", 2, "keep"), ("r", 3, "restart")]
     for j, cut in enumerate(cuts):
         s = Scenario()
         s.k, s.n, s.num_servers, s.maxseg = 2, 3, 3, 131072
@@ -285,14 +284,20 @@ def run_scenario(ctx, s):
                     ctx.violation("shares produced through the helper%s differ from the direct upload's (shnums %s)" % (
                         " after a resumed transfer" if fired_any else "", bad), dict(case, shnums=bad),
                         "helper-shares-differ:%s" % ("resumed" if fired_any else "uninterrupted"))
+                saved_policy = rt.policy
+                rt.policy = "fifo"       # the download is only the observer here: deliver in order (lifo can starve it)
                 try:
                     from allmydata.util.consumer import MemoryConsumer
                     node = c.create_node_from_uri(result.get_uri())
-                    mc = rt.wait(node.read(MemoryConsumer(), 0, s.size))
+                    mc = rt.wait(node.read(MemoryConsumer(), 0, s.size), max_steps=300000)
                     back = b"".join(mc.chunks)
+                except grid.Stuck:
+                    back = None
+                    ctx.count("download-inconclusive (scheduler)")
                 except Exception as e:
                     back = "download failed: %s" % type(e).__name__
-                if back != data:
+                rt.policy = saved_policy
+                if back is not None and back != data:
                     firstbad = next((i for i in range(min(len(back), len(data))) if back[i] != data[i]), min(len(back), len(data))) \
                         if isinstance(back, bytes) else None
                     ctx.violation("downloading the cap returned by the helper-assisted upload%s does not give the file back (%s)" % (
@@ -572,8 +577,8 @@ def run(ctx):
         scen = [scenario_from(ctx.replay["case"])]
     else:
         prng = ctx.subrng("pre")
-        pre = [gen_pre(prng) for _ in range(ctx.budget(80, 1500))]
-        scen = [gen_scenario(ctx.rng) for _ in range(ctx.budget(110, 3000))]
+        pre = [gen_pre(prng) for _ in range(ctx.budget(50, 1000))]
+        scen = [gen_scenario(ctx.rng) for _ in range(ctx.budget(60, 2000))]
         scen.append(gen_scenario(ctx.rng, big=True))
     lines, wants, cases = [], [], []
 
